@@ -380,11 +380,24 @@ def _sequence_sanitised(ck: Check, fm: FuncModel, node: ast.AST, depth: int) -> 
     return False, f"used in `{text(par)[:60]}`"
 
 
+def _resorted(fm: FuncModel, n: ast.Name) -> bool:
+    """every definition of the name that reaches this use is `sorted(...)` / a set: the order taint ended there"""
+    try:
+        at = fm.cfgn(n)
+    except AnalysisError:
+        return False
+    vds = fm.value_defs(n.id, at)
+    return bool(vds) and all(isinstance(v, ast.Call) and callee_name(v) in ("sorted", "set", "frozenset") and isinstance(v.func, ast.Name)
+                             for _, v in vds)
+
+
 def _names_sanitised(ck: Check, fm: FuncModel, names: set[str], depth: int) -> tuple[bool, str]:
     prog = ck.prog
     for n in own_walk(fm.f.node):
         if isinstance(n, ast.Name) and n.id in names and isinstance(n.ctx, ast.Load):
             par = fm.f.parents.get(n)
+            if _resorted(fm, n):
+                continue
             if isinstance(par, ast.Attribute) and par.attr in ("append", "extend", "add"):
                 continue
             if isinstance(par, ast.Call) and callee_name(par) in ("sorted", "set", "frozenset", "len", "any", "all"):
@@ -394,6 +407,14 @@ def _names_sanitised(ck: Check, fm: FuncModel, names: set[str], depth: int) -> t
                 cp = fm.f.parents.get(comp)
                 if isinstance(cp, ast.Call) and callee_name(cp) in ("any", "all", "set", "sorted", "sum"):
                     continue
+                if isinstance(comp, (ast.SetComp, ast.DictComp)):
+                    continue
+                if isinstance(comp, (ast.ListComp, ast.GeneratorExp)) and depth < 4:
+                    # the sequence built from it inherits the order: follow that one
+                    ok, why = _sequence_sanitised(ck, fm, comp, depth + 1)
+                    if ok:
+                        continue
+                    return False, why
                 return False, f"`{n.id}` iterated at line {n.lineno}"
             if isinstance(par, ast.Compare):
                 continue
